@@ -454,7 +454,9 @@ impl<A: Send + 'static> Stream<A> {
                             let s = s.unwrap();
                             s._send(firing.clone());
                             let node = s.box_clone();
-                            sodium_ctx.post(move || {
+                            // detach before the post queue runs: a deferred transaction of this very
+                            // transaction must not get through once more
+                            sodium_ctx.pre_post(move || {
                                 let deps;
                                 {
                                     let dependencies = node.data().dependencies.read();
